@@ -608,8 +608,48 @@ func c09JWT(c *Ctx) {
 				}
 				return true
 			})
+			// or delegated: a boolean function of this package that is handed the host and the
+			// group and answers true only where an audience matched (audienceMatcher)
+			var delegated []*ast.CallExpr
+			if len(mgCalls) == 0 {
+				ast.Inspect(jc.Body(), func(n ast.Node) bool {
+					call, ok := n.(*ast.CallExpr)
+					if !ok {
+						return true
+					}
+					src := p.SrcOfFunc(calleeOf(&CallSite{Call: call, In: jc}))
+					if src == nil || src.Decl == nil || src.Pkg != jc.Pkg || src == jc {
+						return true
+					}
+					hp, gp := -1, -1
+					for k, a := range call.Args {
+						if t := ff.term(a); t != nil {
+							if t.String() == hostT.String() {
+								hp = k
+							}
+							if t.String() == TVar(params[2]).String() {
+								gp = k
+							}
+						}
+					}
+					if hp >= 0 && gp >= 0 && audienceMatcher(p, src, hp, gp) {
+						delegated = append(delegated, call)
+					}
+					return true
+				})
+			}
+			mgCalls = append(mgCalls, delegated...)
 			okSucc, okFlag, nset = len(mgCalls) > 0, true, len(mgCalls)
 			for _, mc := range mgCalls {
+				isDel := false
+				for _, d := range delegated {
+					if d == mc {
+						isDel = true
+					}
+				}
+				if isDel {
+					continue // the host test is inside the delegate (checked there)
+				}
 				if reach, _ := ff.ReachableNotRefuting(mc, hostCond); reach {
 					okFlag = false
 				}
@@ -800,4 +840,105 @@ func c09Global(c *Ctx) {
 		}
 	}
 	c.Check(ok && okAdmin, "R9.5", "global admin token: root scope and the admin permission", fs.Pos(), "t.Check(host, \"\") then slices.Contains(perms, \"admin\")", "the global admin token is not checked against the root scope or not for the admin permission")
+}
+
+// audienceMatcher: the function (whose parameters hostIdx and groupIdx are the
+// canonical host and the group) answers true only where, for some element it
+// examines, matchGroup(<path>, group, ...) returned true and - with a host
+// configured - the element's host compared equal to it.  Accepted shape: every
+// return of the function is false or slices.ContainsFunc(xs, literal); every
+// return of the literal is false, or the matchGroup call itself / true where
+// that call returned true, unreachable while host != "" and the EqualFold
+// test failed.
+func audienceMatcher(p *Program, src *FuncSrc, hostIdx, groupIdx int) bool {
+	info := src.Pkg.TypesInfo
+	sparams := src.params(info)
+	if src.Decl.Recv != nil {
+		return false
+	}
+	if hostIdx >= len(sparams) || groupIdx >= len(sparams) || sparams[hostIdx] == nil || sparams[groupIdx] == nil {
+		return false
+	}
+	hostT, groupT := TVar(sparams[hostIdx]), TVar(sparams[groupIdx])
+	hostCond := func(f *Fact) bool {
+		if f.Op == "eq" && !f.Pos && f.B != nil && ((f.A.Name == `""` && f.B.String() == hostT.String()) || (f.B.Name == `""` && f.A.String() == hostT.String())) {
+			return true
+		}
+		return f.Op == "true" && !f.Pos && f.A.K == 'k' && f.A.Name == "strings.EqualFold"
+	}
+	okAll, nlit := true, 0
+	sf := p.Facts().Analyze(src)
+	for _, ret := range sf.Returns() {
+		if len(ret.Results) != 1 {
+			return false
+		}
+		r := unparen(ret.Results[0])
+		if tv := info.Types[r]; tv.Value != nil && tv.Value.String() == "false" {
+			continue
+		}
+		call, ok := r.(*ast.CallExpr)
+		if !ok || len(call.Args) != 2 {
+			return false
+		}
+		if f := calleeOf(&CallSite{Call: call, In: src}); f == nil || f.Pkg() == nil || f.Pkg().Path() != "slices" || f.Name() != "ContainsFunc" {
+			return false
+		}
+		lit, ok := unparen(call.Args[1]).(*ast.FuncLit)
+		if !ok {
+			return false
+		}
+		ls := p.SrcOfLit(lit)
+		if ls == nil {
+			return false
+		}
+		nlit++
+		lf := p.Facts().Analyze(ls)
+		isMG := func(e ast.Expr) *ast.CallExpr {
+			mc, ok := unparen(e).(*ast.CallExpr)
+			if !ok || len(mc.Args) != 3 || !fnIs(calleeOf(&CallSite{Call: mc, In: ls}), "token", "", "matchGroup") {
+				return nil
+			}
+			if t := lf.term(mc.Args[1]); t == nil || t.String() != groupT.String() {
+				return nil
+			}
+			return mc
+		}
+		for _, lr := range lf.Returns() {
+			if len(lr.Results) != 1 {
+				return false
+			}
+			e := unparen(lr.Results[0])
+			if tv := info.Types[e]; tv.Value != nil && tv.Value.String() == "false" {
+				continue
+			}
+			okRet := false
+			if mc := isMG(e); mc != nil {
+				okRet = true
+			} else if tv := info.Types[e]; tv.Value != nil && tv.Value.String() == "true" {
+				if st, _ := lf.At(lr); st != nil {
+					ast.Inspect(ls.Body(), func(m ast.Node) bool {
+						if mc := isMG2(m, isMG); mc != nil && st.HasFact(mkFact(true, "true", &Term{K: 'r', Name: "res0", Pos: mc.Lparen}, nil)) {
+							okRet = true
+						}
+						return true
+					})
+				}
+			}
+			if !okRet {
+				okAll = false
+				continue
+			}
+			if reach, _ := lf.ReachableNotRefuting(lr, hostCond); reach {
+				okAll = false
+			}
+		}
+	}
+	return okAll && nlit > 0
+}
+
+func isMG2(m ast.Node, isMG func(ast.Expr) *ast.CallExpr) *ast.CallExpr {
+	if e, ok := m.(ast.Expr); ok {
+		return isMG(e)
+	}
+	return nil
 }
